@@ -8,7 +8,7 @@ CHECK = {
     "tests": [
         T("lockset", "TestC20LockSetModel",
           {"checks": 20000, "shards": 2, "timeout": 300},
-          {"checks": 250000, "shards": 16, "timeout": 1500}),
+          {"checks": 150000, "shards": 6, "timeout": 1500}),
     ],
 }
 META = {
